@@ -310,7 +310,7 @@ def histories(vc, cfg):
     import dreye.api.estimator as E
 
     if not vc.symbolic:
-        return
+        return _native_random_history(vc, cfg)
     nf, ns, nd = 2, 2, 2
     est = _make(vc, nf, ns, nd)
     seq = cfg["seq"]
@@ -376,6 +376,148 @@ def histories(vc, cfg):
     vc.canary("K never changes", _same(vc, est.__dict__["K"], vc.array("K", (nf,))) if "K" in "".join(seq) or "adaptation" in "".join(seq) else vc.eq(vc.real("dx"), 0))
 
 
+NATIVE_OPS = ["register_adaptation", "register_baseline", "register_bounds(lb)", "register_bounds(ub)", "register_bounds(both)", "register_system",
+              "register_background_adaptation", "register_background_adaptation(add)", "register_system_adaptation", "register_system_adaptation(add)",
+              "register_targets", "register_targets(W)", "fit()", "queries"]
+
+
+def _native_random_history(vc, cfg):
+    """BOUNDED stand-in (never counted as proved): a random history over the property's alphabet on the real, unpatched estimator
+    (3 receptors, 4 sources, 6 domain points, length 12; the operations are decoded from the random vector `ops`, so a failure replays).
+    After every step every read-only answer is compared with a stateless reference: a fresh estimator constructed from the values the
+    reference model says are registered.  Queries are run twice (same answers), must not change the estimator's state and must not
+    modify the arrays they are given."""
+    import copy
+    from dreye.api.estimator import ReceptorEstimator
+    from .specs import capture_spec
+
+    nf, ns, nd, L = 3, 4, 6, 12
+    pos = lambda name, shape, lo=0.2, hi=1.0: lo + (hi - lo) * (np.asarray(vc.array(name, shape)) - 0.1) / 1.9  # default generator draws U(0.1, 2)
+    F = pos("F", (nf, nd))
+    dx = 1.0
+    ops = (np.asarray(vc.array("ops", (L,))) - 0.1) / 1.9
+    ref = dict(K=np.ones(1), baseline=np.zeros(1), S=pos("S", (ns, nd)), lb=np.zeros(ns), ub=pos("ub", (ns,), 1.0, 2.0), Bt=None, W=None, fitted=False)
+    est = ReceptorEstimator(F.copy(), domain=dx, sources=ref["S"].copy(), lb=ref["lb"].copy(), ub=ref["ub"].copy())
+
+    def cap(sig):
+        return np.asarray(capture_spec(F, np.atleast_2d(sig), dx), dtype=float)
+
+    def build():
+        e = ReceptorEstimator(F.copy(), domain=dx, K=ref["K"].copy(), baseline=ref["baseline"].copy(), sources=ref["S"].copy(), lb=ref["lb"].copy(), ub=ref["ub"].copy())
+        if ref["Bt"] is not None:
+            e.register_targets(ref["Bt"].copy(), W=None if ref["W"] is None else ref["W"].copy())
+        return e
+
+    sig, xq = pos("sig", (2, nd)), pos("Xq", (2, ns))
+
+    def answers(e, tag):
+        """read-only answers; the targets for gamut / fit queries are captures of in-bound intensities scaled around 1 so that both
+        in-gamut and out-of-gamut targets occur"""
+        A = e.A
+        xin = e.lb + (e.ub - e.lb) * np.array([[0.3, 0.6, 0.2, 0.7], [0.9, 0.1, 0.5, 0.4]])
+        Bq = e.system_relative_capture(xin) * np.array([[1.0], [1.6]])
+        given = {"sig": sig.copy(), "Xq": xq.copy(), "Bq": Bq.copy()}
+        out = {
+            "capture": e.capture(given["sig"]), "relative_capture": e.relative_capture(given["sig"]),
+            "system_capture": e.system_capture(given["Xq"]), "system_relative_capture": e.system_relative_capture(given["Xq"]),
+            "in_hull": e.in_hull(given["Bq"]), "sample_in_hull": e.sample_in_hull(n=3, seed=5),
+            "hull_l1_scaling": e.hull_l1_scaling(given["Bq"]),
+        }
+        X, Bp = e.fit(given["Bq"])
+        out["fit(B).pred"] = Bp
+        vc.prove(f"{tag}: queries leave the arrays they are given untouched",
+                 bool(np.array_equal(given["sig"], sig) and np.array_equal(given["Xq"], xq) and np.array_equal(given["Bq"], Bq)))
+        return out
+
+    def state(e):
+        return {k: (np.array(v, copy=True) if isinstance(v, np.ndarray) else copy.deepcopy(v)) for k, v in e.__dict__.items()}
+
+    def same_state(a, b):
+        return a.keys() == b.keys() and all((np.array_equal(a[k], b[k]) if isinstance(a[k], np.ndarray) else a[k] == b[k]) for k in a)
+
+    def close(a, b, tol):
+        a, b = np.asarray(a), np.asarray(b)
+        if a.shape != b.shape:
+            return False
+        if a.dtype == bool or b.dtype == bool:
+            return bool(np.array_equal(a, b))
+        return bool(np.allclose(a, b, rtol=tol, atol=tol))
+
+    hist = []
+    for i in range(L):
+        op = NATIVE_OPS[min(int(ops[i] * len(NATIVE_OPS)), len(NATIVE_OPS) - 1)]
+        if op == "fit()" and ref["Bt"] is None:
+            op = "register_targets"
+        hist.append(op)
+        tag = f"step {i} ({op})"
+        if op == "register_adaptation":
+            v = pos(f"K{i}", (nf,), 0.5, 2.0)
+            est.register_adaptation(v.copy())
+            ref["K"] = v
+        elif op == "register_baseline":
+            v = pos(f"b{i}", (nf,), 0.0, 0.5)
+            est.register_baseline(v.copy())
+            ref["baseline"] = v
+        elif op.startswith("register_bounds"):
+            lb_, ub_ = pos(f"lb{i}", (ns,), 0.0, 0.4), pos(f"ub{i}", (ns,), 1.0, 2.0)
+            kw = {}
+            if op != "register_bounds(ub)":
+                kw["lb"] = lb_.copy()
+                ref["lb"] = lb_
+            if op != "register_bounds(lb)":
+                kw["ub"] = ub_.copy()
+                ref["ub"] = ub_
+            est.register_bounds(**kw)
+        elif op == "register_system":
+            S_, lb_, ub_ = pos(f"S{i}", (ns, nd)), pos(f"lb{i}", (ns,), 0.0, 0.4), pos(f"ub{i}", (ns,), 1.0, 2.0)
+            est.register_system(S_.copy(), lb=lb_.copy(), ub=ub_.copy())
+            ref.update(S=S_, lb=lb_, ub=ub_)
+        elif op.startswith("register_background_adaptation"):
+            bg = pos(f"bg{i}", (nd,))
+            add = op.endswith("(add)")
+            est.register_background_adaptation(bg.copy(), add=add)
+            q = cap(bg)[0] + ref["baseline"]
+            ref["K"] = (ref["K"] + 1 / q) if add else 1 / q
+        elif op.startswith("register_system_adaptation"):
+            xa = pos(f"xa{i}", (ns,))
+            add = op.endswith("(add)")
+            est.register_system_adaptation(xa.copy(), add=add)
+            q = cap(ref["S"]).T @ xa + ref["baseline"]
+            ref["K"] = (ref["K"] + 1 / q) if add else 1 / q
+        elif op.startswith("register_targets"):
+            Bt = pos(f"Bt{i}", (2, nf), 0.5, 3.0)
+            Wt = pos(f"Wt{i}", (2, nf), 0.5, 2.0) if op.endswith("(W)") else None
+            given = Bt.copy()
+            est.register_targets(given, W=None if Wt is None else Wt.copy())
+            ref.update(Bt=Bt, W=Wt, fitted=False, changed=False)
+            given[:] = -1.0  # the caller's array may be reused afterwards: the registered targets are a copy
+            vc.prove(f"{tag}: registered targets are independent of the caller's array", bool(np.array_equal(est.B, Bt)))
+        elif op == "fit()":
+            est.fit()
+        if op != "fit()" and op != "queries" and not op.startswith("register_targets"):
+            ref["changed"] = True
+        e_ref = build()
+        if op == "fit()":
+            e_ref.fit()
+            # the stateless reference fits the REGISTERED targets with the currently registered values
+            kind = "first fit() since register_targets" if not ref["fitted"] else ("repeated fit(), nothing registered in between" if not ref.get("changed") else
+                                                                                   "repeated fit() after re-registration")
+            vc.prove(f"{kind}: captures of the fitted intensities == those of a fresh estimator with the same registered values",
+                     close(est.system_relative_capture(est.X), e_ref.system_relative_capture(e_ref.X), 1e-4),
+                     detail="; ".join(hist) + f" | got {est.system_relative_capture(est.X).ravel()[:6]} reference {e_ref.system_relative_capture(e_ref.X).ravel()[:6]}")
+            ref["fitted"], ref["changed"] = True, False
+        before = state(est)
+        a1 = answers(est, tag)
+        vc.prove(f"{tag}: queries leave the registered state unchanged", same_state(before, state(est)), detail="; ".join(hist))
+        a2 = answers(est, tag)
+        aref = answers(e_ref, tag + " [reference]")
+        for k in a1:
+            vc.prove(f"{tag}: {k} repeated gives the identical answer", close(a1[k], a2[k], 0.0), detail="; ".join(hist))
+            tol = 1e-4 if k.startswith("fit") else 1e-9
+            vc.prove(f"{tag}: {k} == answer of a fresh estimator with the same registered values", k in aref and close(a1[k], aref[k], tol),
+                     detail="; ".join(hist) + f" | got {np.asarray(a1[k]).ravel()[:6]} reference {np.asarray(aref.get(k)).ravel()[:6]}")
+
+
 def _q_cfgs(tier):
     return [dict(method=m) for m in ("capture", "relative_capture", "system_capture", "system_relative_capture", "in_system", "in_hull", "in_gamut", "range_of_solutions",
                                      "sample_in_hull", "compute_hull", "hull_l1_scaling", "hull_dist_scaling", "in_hull(normalized)", "fit", "fit_adaptive", "fit_decomposition", "fit_underdetermined", "minimize_variance")]
@@ -401,8 +543,16 @@ def _h_cfgs(tier):
 FE = ["dreye.api.estimator.ReceptorEstimator." + m for m in ("__init__", "register_adaptation", "register_baseline", "register_bounds", "register_system", "register_background_adaptation",
       "register_system_adaptation", "register_targets", "fit", "capture", "relative_capture", "system_capture", "system_relative_capture", "in_system", "in_hull", "range_of_solutions",
       "sample_in_hull", "compute_hull", "hull_l1_scaling", "fit_adaptive", "fit_decomposition", "fit_underdetermined", "minimize_variance")]
+import json as _json
+import os as _os
+
+with open(_os.path.join(_os.path.dirname(__file__), "c14_pinned.json")) as _f:
+    _PINNED = _json.load(_f)
+
 CONTRACTS = [
     Contract(P, "queries.frames", query_frames, _q_cfgs, FE, native_samples=0, doc=query_frames.__doc__),
     Contract(P, "mutators.frames", mutator_frames, _m_cfgs, FE, native_samples=0, doc=mutator_frames.__doc__),
-    Contract(P, "histories", histories, _h_cfgs, FE, native_samples=0, doc=histories.__doc__),
+    Contract(P, "histories", histories, _h_cfgs, FE, native_samples=3, doc=histories.__doc__ + " | native phase: " + _native_random_history.__doc__,
+             # known finding C14-refit-uses-fitted-captures: register_targets; fit(); register_adaptation; fit()
+             pinned=[({"seq": ["native"], "pinned": "refit-after-re-registration"}, _PINNED)]),
 ]
